@@ -81,11 +81,16 @@ Definition rep_done (r : rep) : bool := length (recent r) <=? n_finished r.
 Definition set_recent (rc : list (option N)) (r : rep) : rep :=
   {| recent := rc; active := active r; next_active := next_active r; n_finished := n_finished r |}.
 
+(* draining the channels = delivering, chain by chain, the latest message each chain has sent so far *)
+Definition deliver_all (rc : list (option N)) (r : rep) : rep :=
+  fold_left (fun r im => match snd im with Some m => deliver (fst im) m r | None => r end)
+            (combine (seq 0 (length rc)) rc) r.
+
 Fixpoint replay (total : N) (r : rep) (snaps : list (list (option N))) : list Z :=
   match snaps with
   | [] => []
   | rc :: t =>
-      let r' := tick total (set_recent rc r) in
+      let r' := tick total (deliver_all rc r) in
       (Z.of_nat (n_finished r') :: Z.of_nat (next_active r') :: Z.of_nat (length (active r'))
          :: map Z.of_nat (active r')) ++ [if rep_done r' then 1%Z else 0%Z] ++ replay total r' t
   end.
@@ -93,3 +98,23 @@ Fixpoint replay (total : N) (r : rep) (snaps : list (list (option N))) : list Z 
 Definition zopt (z : Z) : option N := if (z <? 0)%Z then None else Some (Z.to_N z).
 Definition reporter_eval (total : Z) (n_chains : nat) (snaps : list (list Z)) : list Z :=
   replay (Z.to_N total) (rep_init n_chains) (map (map zopt) snaps).
+
+(* ---- chain worker on the harness's counting chain (c10.rs SlowChain: x_k += k+1 from [1;2;3]); no
+   one-second tick elapses (due = false); every send succeeds or every send fails.
+   Output: final state, rows, then the messages as (n, delivered) pairs ---- *)
+Definition slow_step (s : list Z) : list Z :=
+  map (fun kx => (snd kx + Z.of_nat (fst kx) + 1)%Z) (combine (seq 0 (length s)) s).
+Definition worker_eval (n d : nat) (delivered : Z) : list Z :=
+  let '(s, rows, msgs) :=
+    run_chain_progress_impl (St := list Z) (Row := list Z) slow_step (fun s => s) [0; 0; 0]%Z (fun _ => false)
+                            (fun _ => negb (Z.eqb delivered 0)) [1; 2; 3]%Z n d in
+  s ++ concat rows ++ concat (map (fun m : nat * bool => [Z.of_nat (fst m); if snd m then 1%Z else 0%Z]) msgs).
+
+(* numbers of transitions behind each returned row (and the final state) in progress mode, as Run.real_idx
+   does for plain runs: kind 2 = NUTS::run_progress, otherwise core::run_chain_progress *)
+Definition progress_idx (kind n d : nat) : list Z :=
+  match kind with
+  | 2 => let r := nuts_run_progress_impl S (fun s => s) 0 0 n d in map Z.of_nat (snd r ++ [fst r])
+  | _ => let '(s, rows, _) := run_chain_progress_impl (St := nat) (Row := nat) S (fun s => s) 0 (fun _ => false) (fun _ => true) 0 n d in
+         map Z.of_nat (rows ++ [s])
+  end.
